@@ -142,11 +142,7 @@ def check(run, replay=None):
                 "chain types with bridged interface, overridden entry point, multitest helpers, entry points) and of a generic contract + "
                 "interface whose parameter is named by each single letter / conventional word (quick: a rotating third, thorough: all); "
                 "non-trivial = distinct program")
-    try:
-        text, info, *_ = translate.generate()
-        translate.write_gentables(text)
-    except translate.TranslateError as e:
-        run.translator_error(str(e))
+    translate.regen_tables(run)
     try:
         ttext, n = translate.generate_templates()
         translate.write_gentemplates(ttext)
